@@ -26,6 +26,10 @@ NOWS = [0, 1_000_000_000]
 LEEWAYS = [0, 1, 60, 300]
 
 
+def err_name(name):
+    return {"MissingClaimError": rc.MISSING, "InvalidClaimError": rc.INVALID, "ExpiredTokenError": rc.EXPIRED, "InvalidTokenError": rc.NOTYET}.get(name, "other:" + name)
+
+
 def err_class(exc):
     from joserfc import errors as E
     if isinstance(exc, E.MissingClaimError):
@@ -242,16 +246,40 @@ class RegistryHistories:
                      for o, c in (("none", "expired"), ("none", "exp-not-a-number"), ("none", "nbf-in-future"), ("none", "iat-in-future"), ("none", "fresh"),
                                   ("iss", "iss-evil"), ("iss", "iss-good"), ("iss", "iss-blank"), ("aud", "aud-list"), ("aud-miss", "aud-list"),
                                   ("exp-essential", "nothing"), ("scope", "scope-odd"), ("none", "scope-odd"))]
+        # registries the application keeps: built once, used for many tokens, their clock advanced / leeway adjusted through the
+        # public attributes now and leeway
+        for o in ("iss", "exp-essential", "none"):
+            self.MENU += [("kept", o, c) for c in ("iss-good", "nothing", "iss-evil", "fresh", "expired", "nbf-in-future", "iss-blank")]
+            self.MENU += [("kept:advance-clock", o, "+200s"), ("kept:set-leeway", o, "150s")]
         self._base = {}
 
     def make(self):
-        return {"n": 0}
+        return {"n": 0, "kept": {}, "clock": {}, "leeway": {}}
 
     def apply(self, st, op):
         from joserfc.jwt import JWTClaimsRegistry
         from joserfc.rfc7519.registry import ClaimsRegistry
         from joserfc.errors import InvalidClaimError
         cls, o, c = op
+        if cls.startswith("kept"):
+            if o not in st["kept"]:
+                st["kept"][o] = JWTClaimsRegistry(now=NOW, leeway=0, **copy.deepcopy(HIST_OPTIONS[o]))
+                st["clock"][o], st["leeway"][o] = NOW, 0
+            reg = st["kept"][o]
+            if cls == "kept:advance-clock":
+                st["clock"][o] += 200
+                reg.now = st["clock"][o]
+                return ("clock", st["clock"][o] - NOW)
+            if cls == "kept:set-leeway":
+                st["leeway"][o] = 150
+                reg.leeway = 150
+                return ("leeway", 150)
+            claims = copy.deepcopy(HIST_CLAIMS[c])
+            r = call(lambda: reg.validate(claims))
+            obs = ("accepted",) if r.ok else ("rejected", type(r.exc).__name__, str(r.exc)[:60])
+            if claims != HIST_CLAIMS[c]:
+                obs += ("claims-modified",)
+            return obs + (("at", st["clock"][o], st["leeway"][o]),)
 
         class AppRegistry(JWTClaimsRegistry):
             def validate_iss(self, value):                      # the application's own issuer rule replaces the value comparison
@@ -281,11 +309,11 @@ class RegistryHistories:
         return obs
 
     def canon(self, st):
-        from ..history import canon_modules
-        return canon_modules("joserfc.rfc7519")
+        from ..history import canon_state
+        return canon_state(st["kept"], prefix="joserfc.rfc7519")
 
     def bucket(self, obs):
-        return ":".join(obs[:2])
+        return ":".join(str(x) for x in obs[:2])
 
     def baseline(self, op):
         if op not in self._base:
@@ -295,8 +323,21 @@ class RegistryHistories:
         return self._base[op]
 
     def check(self, hist, op, obs, st):
-        base = self.baseline(op)
         vs = []
+        if op[0].startswith("kept"):
+            if op[0] != "kept" or obs[0] not in ("accepted", "rejected"):
+                return vs
+            _, now, leeway = obs[-1]
+            ok, errs, open_case = rc.judge(HIST_CLAIMS[op[2]], HIST_OPTIONS[op[1]], now, leeway)
+            if (obs[0] == "accepted") != ok and not open_case:
+                vs.append(viol(f"a registry that is kept and used again {'accepts a claims set that does not satisfy the request' if not ok else 'rejects a claims set that satisfies the request'}",
+                               f"after {list(hist)}: {op} at now={now} leeway={leeway} -> {obs[:3]}, reference: ok={ok} {sorted(errs)}"))
+            elif obs[0] == "rejected" and not ok and err_name(obs[1]) not in errs and not open_case:
+                vs.append(viol("a registry that is kept and used again reports the wrong error class", f"after {list(hist)}: {op} -> {obs[:3]}, admissible {sorted(errs)}"))
+            if "claims-modified" in obs:
+                vs.append(viol("claims modified by validation", f"after {list(hist)}: {op}"))
+            return vs
+        base = self.baseline(op)
         if obs != base:
             vs.append(viol(f"the verdict of a validation depends on validations made earlier by other registries [{op[0]}]",
                            f"after {list(hist)} the call {op} gives {obs}; as the first call of a process it gives {base}"))
